@@ -14,7 +14,7 @@ from vlib import cb, cl, cp, cz, coq_eval_bools
 
 IMPORTS_SRC = "From PV Require C11.SrcRun.\n"
 SRC_THEOREMS = ["c11_source_read_ctm_is_model", "c11_source_write_ctm_is_model", "c11_source_ctm_roundtrip",
-                "c11_source_to_transcript_is_model", "c11_source_to_token_is_model"]
+                "c11_source_to_transcript_is_model", "c11_source_to_token_is_model", "c11_source_tokens_roundtrip"]
 # label of the model comparison -> (model check, source check)
 SWAP = {
     "write_ctm = model": ("check_write_ctm ", "SrcRun.src_check_write_ctm "),
